@@ -41,6 +41,17 @@ theorem xor_self_cancel (a b : UInt64) : a ^^^ b ^^^ b = a := by
 theorem xor_right_comm' (a b c : UInt64) : a ^^^ b ^^^ c = a ^^^ c ^^^ b := by
   rw [UInt64.xor_assoc, UInt64.xor_comm b c, ← UInt64.xor_assoc]
 
+theorem xor_left_comm' (a b c : UInt64) : a ^^^ (b ^^^ c) = b ^^^ (a ^^^ c) := by
+  rw [← UInt64.xor_assoc, UInt64.xor_comm a b, UInt64.xor_assoc]
+
+theorem xor_cancel_left' (a b : UInt64) : a ^^^ (a ^^^ b) = b := by
+  rw [← UInt64.xor_assoc, UInt64.xor_self, UInt64.zero_xor]
+
+/-- normalise an XOR expression modulo associativity, commutativity and x ^ x = 0 -/
+macro "xor_ac" : tactic =>
+  `(tactic| simp only [UInt64.xor_assoc, UInt64.xor_comm, xor_left_comm', xor_cancel_left', UInt64.xor_self,
+      UInt64.xor_zero, UInt64.zero_xor])
+
 theorem foldl_xor_init (f : Point → UInt64) (l : List Point) (k : UInt64) :
     l.foldl (fun k pt => k ^^^ f pt) k = k ^^^ l.foldl (fun k pt => k ^^^ f pt) 0 := by
   induction l generalizing k with
@@ -119,28 +130,9 @@ theorem placementKey_set (h : Hasher) (b : Board) (pt : Point) (v : Square) (hpt
 
 theorem keyOK_swapColor (h : Hasher) (p : Pos) (hk : KeyOK h p) : KeyOK h (p.swapColor h) := by
   unfold KeyOK Pos.swapColor scratchKey at *
-  simp only
+  dsimp only
   rw [hk]
-  cases p.toMove <;> simp only [Color.opp, sideKey, UInt64.xor_zero]
-  · -- white → black: the side word appears
-    simp only [UInt64.xor_assoc]
-    congr 1
-    rw [UInt64.xor_comm]
-    simp only [UInt64.xor_assoc]
-  · -- black → white: the side word cancels
-    have : ∀ a s r : UInt64, a ^^^ s ^^^ r ^^^ s = a ^^^ r := by
-      intro a s r; rw [xor_right_comm' a s r, xor_self_cancel]
-    simp only [UInt64.xor_assoc] at *
-    simp only [← UInt64.xor_assoc]
-    generalize placementKey h p.board = a
-    generalize h.side = s
-    -- move the trailing `s` next to the leading one
-    have e : ∀ (x1 x2 x3 x4 x5 : UInt64), a ^^^ s ^^^ x1 ^^^ x2 ^^^ x3 ^^^ x4 ^^^ x5 ^^^ s
-        = a ^^^ x1 ^^^ x2 ^^^ x3 ^^^ x4 ^^^ x5 := by
-      intro x1 x2 x3 x4 x5
-      rw [xor_right_comm' _ x5 s, xor_right_comm' _ x4 s, xor_right_comm' _ x3 s, xor_right_comm' _ x2 s,
-        xor_right_comm' _ x1 s, xor_self_cancel]
-    exact e _ _ _ _ _
+  cases hc : p.toMove <;> simp only [Color.opp, sideKey] <;> xor_ac
 
 theorem keyOK_takeAway (h : Hasher) (p : Pos) (ct : CastlingType) (hk : KeyOK h p) :
     KeyOK h (p.takeAway h ct) := by
@@ -150,55 +142,24 @@ theorem keyOK_takeAway (h : Hasher) (p : Pos) (ct : CastlingType) (hk : KeyOK h 
     rename_i hon
     simp only [hon, rightKey, if_true] at hk ⊢
     rw [hk]
-    simp only [Bool.false_eq_true, if_false, UInt64.xor_zero]
-  · -- wks
-    generalize placementKey h p.board ^^^ sideKey h p.toMove = a
-    have e : ∀ (w x2 x3 x4 x5 : UInt64), a ^^^ w ^^^ x2 ^^^ x3 ^^^ x4 ^^^ x5 ^^^ w = a ^^^ x2 ^^^ x3 ^^^ x4 ^^^ x5 := by
-      intro w x2 x3 x4 x5
-      rw [xor_right_comm' _ x5 w, xor_right_comm' _ x4 w, xor_right_comm' _ x3 w, xor_right_comm' _ x2 w, xor_self_cancel]
-    exact e _ _ _ _ _
-  · generalize placementKey h p.board ^^^ sideKey h p.toMove ^^^ (if p.wks = true then h.castle CastlingType.wks else 0) = a
-    have e : ∀ (w x3 x4 x5 : UInt64), a ^^^ w ^^^ x3 ^^^ x4 ^^^ x5 ^^^ w = a ^^^ x3 ^^^ x4 ^^^ x5 := by
-      intro w x3 x4 x5
-      rw [xor_right_comm' _ x5 w, xor_right_comm' _ x4 w, xor_right_comm' _ x3 w, xor_self_cancel]
-    exact e _ _ _ _
-  · generalize placementKey h p.board ^^^ sideKey h p.toMove ^^^ (if p.wks = true then h.castle CastlingType.wks else 0)
-      ^^^ (if p.wqs = true then h.castle CastlingType.wqs else 0) = a
-    have e : ∀ (w x4 x5 : UInt64), a ^^^ w ^^^ x4 ^^^ x5 ^^^ w = a ^^^ x4 ^^^ x5 := by
-      intro w x4 x5
-      rw [xor_right_comm' _ x5 w, xor_right_comm' _ x4 w, xor_self_cancel]
-    exact e _ _ _
-  · generalize placementKey h p.board ^^^ sideKey h p.toMove ^^^ (if p.wks = true then h.castle CastlingType.wks else 0)
-      ^^^ (if p.wqs = true then h.castle CastlingType.wqs else 0) ^^^ (if p.bks = true then h.castle CastlingType.bks else 0) = a
-    have e : ∀ (w x5 : UInt64), a ^^^ w ^^^ x5 ^^^ w = a ^^^ x5 := by
-      intro w x5
-      rw [xor_right_comm' _ x5 w, xor_self_cancel]
-    exact e _ _
+    simp only [Bool.false_eq_true, if_false]
+    xor_ac
 
 theorem keyOK_unsetEp (h : Hasher) (p : Pos) (hk : KeyOK h p) : KeyOK h (p.unsetEp h) := by
   unfold KeyOK Pos.unsetEp scratchKey at *
   cases he : p.ep with
   | none => simp only; rw [hk, he]
   | some t =>
-    simp only [epKey, UInt64.xor_zero]
+    simp only [epKey]
     rw [hk, he]
     simp only [epKey]
-    rw [xor_self_cancel]
+    xor_ac
 
 theorem scratchKey_board (h : Hasher) (p : Pos) (b : Board) :
     scratchKey h { p with board := b } = scratchKey h p ^^^ placementKey h p.board ^^^ placementKey h b := by
   unfold scratchKey
   simp only
-  generalize placementKey h p.board = a
-  generalize placementKey h b = a'
-  have e : ∀ (x1 x2 x3 x4 x5 x6 : UInt64),
-      a' ^^^ x1 ^^^ x2 ^^^ x3 ^^^ x4 ^^^ x5 ^^^ x6 = a ^^^ x1 ^^^ x2 ^^^ x3 ^^^ x4 ^^^ x5 ^^^ x6 ^^^ a ^^^ a' := by
-    intro x1 x2 x3 x4 x5 x6
-    rw [xor_right_comm' _ x6 a, xor_right_comm' _ x5 a, xor_right_comm' _ x4 a, xor_right_comm' _ x3 a,
-      xor_right_comm' _ x2 a, xor_right_comm' _ x1 a, UInt64.xor_self, UInt64.zero_xor,
-      xor_right_comm' _ x6 a', xor_right_comm' _ x5 a', xor_right_comm' _ x4 a', xor_right_comm' _ x3 a',
-      xor_right_comm' _ x2 a', UInt64.xor_comm x1 a']
-  exact e _ _ _ _ _ _
+  xor_ac
 
 /-- `move_piece` keeps the key exact for any on-board squares (a start square without a piece is a no-op) -/
 theorem keyOK_movePiece (h : Hasher) (p : Pos) (s e : Point) (hs : OnBoard s) (he : OnBoard e)
@@ -208,45 +169,10 @@ theorem keyOK_movePiece (h : Hasher) (p : Pos) (s e : Point) (hs : OnBoard s) (h
   | empty => exact hk
   | boundary => exact hk
   | full cur =>
-    simp only
-    unfold KeyOK at *
-    simp only
-    have hb := scratchKey_board h p ((p.board.set s.row s.col .empty).set e.row e.col (.full cur))
-    simp only at hb
-    -- scratch key of the new record: only board changed relative to p (key is not an input of scratchKey)
-    have hsk : scratchKey h { p with board := (p.board.set s.row s.col .empty).set e.row e.col (.full cur),
-        key := (match (p.board.set s.row s.col .empty).get e.row e.col with
-          | .full target => p.key ^^^ h.piece target e
-          | _ => p.key) ^^^ (h.piece cur s ^^^ h.piece cur e) } =
-        scratchKey h { p with board := (p.board.set s.row s.col .empty).set e.row e.col (.full cur) } := rfl
-    rw [hsk, hb, placementKey_set h _ e _ he, placementKey_set h _ s _ hs, hsq, ← hk]
-    simp only [sqKey, UInt64.xor_zero]
-    generalize placementKey h p.board = a
-    generalize p.key = k
-    cases (p.board.set s.row s.col .empty).get e.row e.col with
-    | full target =>
-      simp only
-      generalize h.piece target e = t
-      generalize h.piece cur s = cs
-      generalize h.piece cur e = ce
-      -- k ^ t ^ (cs ^ ce) = k ^ a ^ (a ^ cs ^ t ^ ce)
-      have : k ^^^ a ^^^ (a ^^^ cs ^^^ t ^^^ ce) = k ^^^ t ^^^ (cs ^^^ ce) := by
-        rw [← UInt64.xor_assoc, ← UInt64.xor_assoc, ← UInt64.xor_assoc, xor_self_cancel,
-          xor_right_comm' k cs t, UInt64.xor_assoc (k ^^^ t) cs ce]
-      exact this.symm
-    | empty =>
-      simp only [UInt64.xor_zero]
-      generalize h.piece cur s = cs
-      generalize h.piece cur e = ce
-      have : k ^^^ a ^^^ (a ^^^ cs ^^^ ce) = k ^^^ (cs ^^^ ce) := by
-        rw [← UInt64.xor_assoc, ← UInt64.xor_assoc, xor_self_cancel, UInt64.xor_assoc]
-      exact this.symm
-    | boundary =>
-      simp only [UInt64.xor_zero]
-      generalize h.piece cur s = cs
-      generalize h.piece cur e = ce
-      have : k ^^^ a ^^^ (a ^^^ cs ^^^ ce) = k ^^^ (cs ^^^ ce) := by
-        rw [← UInt64.xor_assoc, ← UInt64.xor_assoc, xor_self_cancel, UInt64.xor_assoc]
-      exact this.symm
+    unfold KeyOK scratchKey at *
+    dsimp only
+    rw [placementKey_set h _ e _ he, placementKey_set h _ s _ hs, hsq, hk]
+    simp only [sqKey]
+    cases (p.board.set s.row s.col .empty).get e.row e.col <;> dsimp only <;> xor_ac
 
 end Walleye
